@@ -9,6 +9,7 @@ prop("C02", pkg="c02",
      quick=dict(shards=16, scale=1, timeout=900),
      thorough=dict(shards=16, rounds=8, scale=1.5, timeout=3000),
      fuzz=[('FuzzUnmarshalDiff', 120)],
+     builds=[dict(name="default", tags=[], race=False), dict(name="purego", tags=["purego"], race=False, thorough_only=True)],
      technique="rapid property-based differential testing against encoding/json over target types x document histories x decoder settings",
      level_text="Exploration: randomised stateful differential testing against encoding/json (several hundred thousand document decodes per quick run); "
                 "finds acceptance or value differences that need a particular target shape, prior state or literal only if the generator reaches them; "
